@@ -4,7 +4,7 @@
 # and the repository's own suite passes with the patch. Appends to seeded/<ID>/confirm.log.
 set -u
 ID="$1"; SEED=/verif/seeded/$ID; WT=/tmp/confirm-$ID
-LOG=$SEED/confirm.log; : > $LOG
+LOG=$SEED/confirm.log   # full log (git-ignored); a digest is written to confirm.txt at the end; : > $LOG
 git -C /repo worktree add -q --detach $WT HEAD || exit 2
 export CARGO_TARGET_DIR=/tmp/confirm-target CARGO_NET_OFFLINE=true
 cd $WT
@@ -35,4 +35,5 @@ rm -f $WT/tests/seed_demo.rs
 [ $# -ge 4 ] && { rm -f "$WT/$2"; git checkout -- "$3"; }
 cargo nextest run --workspace --no-fail-fast --tool-config-file pb:/w/lib/nextest.toml --profile pb --test-threads 8 --offline 2>&1 | tail -4 >> $LOG
 cd /; git -C /repo worktree remove --force $WT
+grep -E "^==|^exit=|Summary|^test result|panicked at|FAILED|^test .* (ok|FAILED)" $LOG | cut -c1-300 | head -60 > $SEED/confirm.txt
 grep -E "^exit=|Summary|^==" $LOG
